@@ -283,8 +283,10 @@ def check_case(case):
                 sel = False
             if sel:
                 groups.setdefault(r["chromosome"], []).append(float(after[i]))
-        if not groups:
-            # every autosomal bin is null-coverage and skipped: the estimator is undefined, nothing is asserted
+        low_auto = [auto_like[i] and case["skip_low"] and (r["log2"] <= -15 or (case["has_depth"] and r["depth"] == 0)) for i, r in enumerate(rows)]
+        if not groups or (any(auto_like) and sum(low_auto) == sum(auto_like)):
+            # every autosome-named bin is null-coverage and skipped: the estimator of "the autosomal bins" is undefined
+            # (cnvkit then falls back to all remaining bins, PAR or not); nothing is asserted
             return out
         cands = two_level(case["estimator"], list(groups.values()), case["by_chrom"])
         if cands is None:
